@@ -406,7 +406,8 @@ def jobs(tier: str, seed: int) -> list[dict]:
             add(f'{code}/n2/d3/T/p{k}', 9, code=code, n=2, depth=3, part=part)
     for k, part in enumerate(weak_orders(['s0', 's1', 's2'])):
         add(f'NT/n3/d2/T/w{k}', 8, code='NT', n=3, depth=2, part=part)
-    add('NT/n2/d3/C', 6, code='NT', n=2, depth=3, mode='C', cover=['done', 'folded'])
+    add('NT/n2/d3/C', 9, code='NT', n=2, depth=3, mode='C', cover=['done', 'folded'])
+    out[-1]['budget_s'] = 2 * B        # ~3 000 paths: confirmed in ~400 CPU-s when the machine is idle
     # fixed-limit cap: bet + 3 raises allowed, the next one refused (deep concrete stacks)
     add('FT/n2/cap', 3, code='FT', n=2, depth=6, script='crrrr', fixed={'0': 1000, '1': 1000},
         cover=['done', 'raise-refused'])
